@@ -79,6 +79,13 @@ def gen_tables(ctx):
         "xlsx._resolve_drawing_path": "resolve_part_name" in _calls(xx._resolve_drawing_path),
         "epub.resolve_href": "resolve_part_name" in _calls(ex._EpubContext.resolve_href),
     }
+    from sharepoint2text.parsing.extractors.open_office import _shared as osh, odt_extractor as ot, odp_extractor as op_, \
+        ods_extractor as os_, odg_extractor as og
+    omn = getattr(osh, "odf_member_name", None)
+    sites["odf._shared.odf_member_name"] = omn is not None and "resolve_part_name" in _calls(omn)
+    for nm_, fn_ in (("odt._extract_images_from_context", ot._extract_images_from_context), ("odp._extract_image", op_._extract_image),
+                     ("ods._extract_images", os_._extract_images), ("odg._extract_images", og._extract_images)):
+        sites[nm_] = "odf_member_name" in _calls(fn_)
     anchor_ids = {xx.XDR_ONE_CELL_ANCHOR: 0, xx.XDR_TWO_CELL_ANCHOR: 1, xx.XDR_ABSOLUTE_ANCHOR: 2}
     pair = lambda a, b: f"({a}, {b})"
     t = "(* GENERATED on every check run from the live modules of the repo under test — do not edit. *)\n"
@@ -138,6 +145,8 @@ def corr_resolve(ctx):
         cases.append(f"({coq_str(base)}, {coq_str(t)}, {coq_str(got)})")
         info.append((site, base, t, got))
         ctx.case(("resolve", site, base, t), "/" in t or ".." in t, kind="resolve:" + site)
+    from sharepoint2text.parsing.extractors.open_office import _shared as osh
+    omn = getattr(osh, "odf_member_name", None)
     rp = getattr(zip_utils, "resolve_part_name", None)
     ctx.obligation("resolver:util.zip_utils.resolve_part_name exists", rp is not None,
                    "the shared resolver modelled by C14/Model.v resolve_part is absent (tree without fixes/C14-resolve-part-names.patch)")
@@ -154,6 +163,8 @@ def corr_resolve(ctx):
             except TypeError:
                 return xx._resolve_image_path(t)
         add("xlsx._resolve_image_path", "xl/drawings", t, ximg)
+        if omn is not None:
+            add("odf.odf_member_name", "", t, lambda: omn(t))
         for od in ("OEBPS/", "", "OEBPS/pkg/"):
             add("epub.resolve_href", od, t, lambda: ex._EpubContext.resolve_href(types.SimpleNamespace(_opf_dir=od), t))
     ok, failing, log = coq_eval_shards(ctx, "resolve", "From S2T Require Import Lib.PyStr C14.Model C14.Corr.\n",
@@ -303,10 +314,12 @@ def gen_spec(ctx, fmt, idx):
               "pptx": ["rel"] * 5 + ["parent", "abs", "dot", "updown", "missing", "external"],
               "xlsx": ["rel"] * 5 + ["parent", "abs", "dot", "updown", "missing"],
               "epub": ["rel"] * 5 + ["abs", "dot", "missing", "parent"],
-              }.get(fmt, ["rel"] * 6 + ["dot", "missing", "external"])
+              }.get(fmt, ["rel"] * 6 + ["dot", "updown", "missing", "external"])
     spec = {"fmt": fmt, "media": media, "units": [], "idx": idx}
     if fmt == "epub":
         spec["opf"] = rng.choice(["OEBPS/content.opf", "OEBPS/content.opf", "OEBPS/pkg/content.opf", "content.opf"])
+    if fmt == "pptx":
+        spec["same_pos"] = rng.random() < 0.25
     if fmt == "xlsx":
         files = list(range(1, nunits + 1))
         if rng.random() < 0.15:
@@ -333,6 +346,8 @@ def gen_spec(ctx, fmt, idx):
                     pl["anchor"] = rng.choice(["two", "two", "one", "abs"])
                 if fmt == "odt":
                     pl["in_textbox"] = rng.random() < 0.25
+                if fmt == "docx":
+                    pl["in_table"] = rng.random() < 0.2
             if fmt == "xlsx":
                 pl.setdefault("anchor", "two")
             unit.append(pl)
@@ -365,7 +380,7 @@ def _target(spec, fmt, unit_no, part, style):
         return Wr.opc_target(src, part, style)
     if fmt == "epub":
         return Wr.opc_target(spec["opf"], part, style if style != "parent" or "/" in os.path.dirname(spec["opf"]) else "rel")
-    return {"rel": part, "dot": "./" + part}.get(style, part)            # ODF hrefs (package root)
+    return {"rel": part, "dot": "./" + part, "updown": "x/../" + part}.get(style, part)            # ODF hrefs (package root)
 
 
 def run_impl(spec, data):
@@ -441,6 +456,16 @@ def check_spec(ctx, spec, doc, units, replay):
         F(f"{fmt}-numbering", f"image numbers over iterate_images() are {nums}, not 1..{len(doc)}")
     want = [pl["m"] for u in placed for pl in u]
     real = [g for g in got_ids if g is not None and g in placed_media]
+    if fmt == "docx":
+        # a relationship no drawing references may point at a media that is also placed: the surplus copy is the
+        # unreferenced-relationship finding, not an ordering matter
+        for m_ in extra & placed_media:
+            rids = {pl["rid"] for pl in spec["units"][0] if pl["m"] == m_}
+            while real.count(m_) > len(rids):
+                F("docx-phantom:unreferenced", f"iterate_images() returns {media[m_]['part']} once more than the body references it "
+                  f"(through an image relationship no drawing uses)")
+                k_ = len(real) - 1 - real[::-1].index(m_)
+                del real[k_]
     it = iter(want)
     if not all(any(g == w_ for w_ in it) for g in real):     # returned order must be a subsequence of the placement order
         F(f"{fmt}-order", f"images come back in order {real}, the document places them in order {want}")
@@ -477,7 +502,14 @@ def spec_case(spec, doc, units):
         by_rid = {}
         for pl in spec["units"][0]:
             by_rid.setdefault(pl["rid"], pl)
-        us = [[(by_rid[r]["target"], 0) for r in spec["rel_order"]] + [(t, 0) for _, t, _ in spec["extra_rels"]]]
+        # relationships whose r:embed occurs in the body, in order of first occurrence (tables included), then the
+        # remaining image relationships (r:link pictures, unreferenced ones) in relationship order
+        body_rids = []
+        for pl in spec["units"][0]:
+            if pl["style"] != "external" and pl["rid"] not in body_rids:
+                body_rids.append(pl["rid"])
+        order = body_rids + [r for r in spec["rel_order"] if r not in body_rids]
+        us = [[(by_rid[r]["target"], 0) for r in order] + [(t, 0) for _, t, _ in spec["extra_rels"]]]
     if fmt == "pptx":
         # a slide's rels dict is keyed by rid: the first relationship written for a rid wins in the writer as well
         us = []
@@ -632,7 +664,7 @@ def run(ctx):
         "C14_resolve_names_a_part", "C14_sniff_total", "C14_sniff_png", "C14_sniff_gif", "C14_sniff_bmp", "C14_sniff_jpeg",
         "C14_image_numbers", "C14_running_numbers", "C14_restart_numbers_refuted", "C14_ods_numbers_refuted",
         "C14_views_coincide", "C14_unit_content_in_document", "C14_xlsx_views", "C14_docx_unit_images_in_document",
-        "C14_odf_href_refuted", "C14_odf_href_partial"])
+        "C14_odf_href_legacy_refuted", "C14_odf_href_legacy_partial", "C14_odf_href_resolved", "C14_sniff_jpeg_util"])
     ctx.prove("C14/Inst.v", ["Gen/C14Tables.vo", "C14/Corr.vo"], expected=[
         "C14_sof_markers_match", "C14_content_types_match", "C14_signatures_match", "C14_anchor_order"])
     ctx.prove("C14/InstSites.v", ["Gen/C14Tables.vo"], expected=["C14_resolver_sites"])
@@ -653,7 +685,7 @@ META = {
                   "return the declared size on every well-formed PNG/GIF/BMP header and every JPEG made of complete segments; "
                   "found-only and running counters number 1..n in document order and pass the payload through untouched; unit and "
                   "document views coincide for page/slide/sheet formats (XLSX tables: refuted on empty sheets, partial otherwise). "
-                  "Refuted with witnesses: legacy pptx/docx/xlsx/epub resolvers, verbatim ODF hrefs, per-slide restart, ODS counter gap. "
+                  "Refuted with witnesses: legacy pptx/docx/xlsx/epub resolvers, legacy verbatim ODF hrefs and ODS counter gap, per-slide restart. "
                   "Validated only (differential): the eight per-format pipelines, content types, fixtures; PDF/RTF images not modelled.",
     "level_note": "Trusted: Coq kernel+VM; the G-dump/AST site scan; hand-written models validated differentially; zipfile, "
                   "ElementTree, mimetypes, openpyxl, pypdf as oracles; the package writers of the harness.",
